@@ -23,6 +23,9 @@
 #include "libavoid/libavoid.h"
 #include <map>
 #include <set>
+#include <unistd.h>
+#include <sys/types.h>
+#include <sys/wait.h>
 using namespace Avoid;
 
 namespace {
@@ -362,7 +365,8 @@ void doMove(World &w, vh::Rng &rng, unsigned id) {
     if (!ok && kind <= 2) {                                                            // far away / anywhere
         double ww = o->r.x1 - o->r.x0, hh = o->r.y1 - o->r.y0;
         for (int t = 0; t < 40 && !ok; ++t) {
-            double x = rng.range((long) LO - 40, (long) (HI + 40 - ww)), y = rng.range((long) LO - 40, (long) (HI + 40 - hh));
+            long xh = std::max((long) LO - 40, (long) (HI + 40 - ww)), yh = std::max((long) LO - 40, (long) (HI + 40 - hh));
+            double x = rng.range((long) LO - 40, xh), y = rng.range((long) LO - 40, yh);
             r = Rc{x, y, x + ww, y + hh}; ok = placeable(w, r, id);
         }
     }
@@ -537,14 +541,10 @@ void scenarioOffPending(World &w, vh::Rng &rng) {
 
 } // namespace
 
-int main(int argc, char **argv) {
-    vh::Args a = vh::parseArgs(argc, argv);
-    long ncases = ((a.tier == "thorough") ? 4000 : 500) * a.scale;
-    if (a.n >= 0) ncases = a.n;
+static void runCase(const vh::Args &a, long k) {
     static const char *tags[] = {"unblock-untouched", "unblock-touched", "block", "txn-off-pending",
                                  "rand-poly", "rand-orth", "rand-poly-off", "rand-orth-off", "block-diagonal"};
-    for (long k = 0; k < ncases; ++k) {
-        if (!a.want(k)) continue;
+    {
         vh::Rng rng = vh::caseRng(a.seed, k);
         int cls;
         long c = k % 20;
@@ -588,6 +588,39 @@ int main(int argc, char **argv) {
         printf("done\n");
         delete w.router;
         vh::endCase();
+    }
+}
+
+// Every case runs in a forked child, so that an abort inside libavoid (failed COLA_ASSERT, sanitizer
+// report) in one history does not lose the remaining histories of the run. The first case whose child
+// died is run again IN-PROCESS at the very end: the stream then ends with that unterminated CASE and
+// the harness dies with the original diagnostics, which is what check.py turns into a CRASH verdict
+// with an exact replay (--only K always runs in-process).
+int main(int argc, char **argv) {
+    vh::Args a = vh::parseArgs(argc, argv);
+    long ncases = ((a.tier == "thorough") ? 4000 : 500) * a.scale;
+    if (a.n >= 0) ncases = a.n;
+    if (a.only >= 0) { runCase(a, a.only); return 0; }
+    long firstCrash = -1, ncrash = 0;
+    for (long k = 0; k < ncases; ++k) {
+        fflush(stdout); fflush(stderr);
+        pid_t pid = fork();
+        if (pid < 0) { runCase(a, k); continue; }           // cannot fork: run in-process
+        if (pid == 0) { runCase(a, k); fflush(stdout); exit(0); }   // exit(): lets LeakSanitizer report
+        int status = 0;
+        waitpid(pid, &status, 0);
+        if (!(WIFEXITED(status) && WEXITSTATUS(status) == 0)) {
+            ++ncrash;
+            if (firstCrash < 0) firstCrash = k;
+            printf("\n");                                    // terminate a possibly half-written line
+            fprintf(stderr, "c06 harness: case %ld died (wait status 0x%x)\n", k, status);
+        }
+    }
+    if (firstCrash >= 0) {
+        fprintf(stderr, "c06 harness: %ld case(s) died; re-running the first one (%ld) in-process\n", ncrash, firstCrash);
+        fflush(stdout); fflush(stderr);
+        runCase(a, firstCrash);
+        return 1;                                            // not reached if the crash is deterministic
     }
     return 0;
 }
